@@ -271,6 +271,7 @@ type file struct {
 	idx   int64 // hour index or day index
 	rows  []row
 	opTxt string
+	path  string
 }
 
 type env struct {
@@ -290,6 +291,7 @@ type env struct {
 	rid                      int64
 	qid                      int
 	newPartSinceQ            bool
+	compactedSinceQ          bool
 	garbage                  bool
 	sqlLog                   *os.File
 	tCopy, tXform, tRun      time.Duration
@@ -352,7 +354,7 @@ func (e *env) reset() {
 	e.caseNo++
 	e.dbName = fmt.Sprintf("db%d", e.caseNo)
 	e.files = nil
-	e.newPartSinceQ = false
+	e.newPartSinceQ, e.compactedSinceQ = false, false
 	e.c.Op("reset", "ok")
 }
 
@@ -424,8 +426,65 @@ func (e *env) addFile(tbl string, day bool, idx int64, rows []row) {
 	for _, r := range rows {
 		fmt.Fprintf(&sb, " %d %d %d %d %d", r.rid, r.t, r.c1, r.c2, r.v)
 	}
-	e.files = append(e.files, file{tbl, day, idx, rows, sb.String()})
+	e.files = append(e.files, file{tbl, day, idx, rows, sb.String(), full})
 	e.c.Op(sb.String(), "ok")
+}
+
+// rmPart deletes the files of a partition (all, or all but the first one written).
+func (e *env) rmPart(tbl string, day bool, idx int64, keepFirst bool) {
+	var out []file
+	seen := false
+	for _, f := range e.files {
+		if f.tbl == tbl && f.day == day && f.idx == idx {
+			if !seen && keepFirst {
+				seen = true
+				out = append(out, f)
+				continue
+			}
+			seen = true
+			must(os.Remove(f.path))
+			continue
+		}
+		out = append(out, f)
+	}
+	e.files = out
+	k := "h"
+	if day {
+		k = "d"
+	}
+	e.c.Op(fmt.Sprintf("rmpart %s %s %d %d", tbl, k, idx, b01(keepFirst)), "ok")
+}
+
+// compactDay does what a daily compaction job leaves behind: the rows of the day's hour files are written to a
+// new day-level file, the hour files are removed (keepFirst: the first file of every hour directory stays, like a
+// late raw file the job did not pick up), and the completion hook QueryHandler.InvalidateCaches fires.
+func (e *env) compactDay(tbl string, dayI int64, keepFirst bool) bool {
+	var moved []row
+	hours := map[int64]int{}
+	var order []int64
+	for _, f := range e.files {
+		if f.tbl == tbl && !f.day && floorDiv(f.idx, 24) == dayI {
+			if hours[f.idx] == 0 {
+				order = append(order, f.idx)
+			}
+			hours[f.idx]++
+			if !(keepFirst && hours[f.idx] == 1) {
+				moved = append(moved, f.rows...)
+			}
+		}
+	}
+	if len(moved) == 0 {
+		return false
+	}
+	e.addFile(tbl, true, dayI, moved)
+	for _, h := range order {
+		e.rmPart(tbl, false, h, keepFirst)
+	}
+	e.qhOn.InvalidateCaches() // the REAL post-compaction hook
+	e.c.Op("inval", "ok")
+	e.compactedSinceQ = true
+	e.c.Tag("compaction")
+	return true
 }
 
 func (e *env) layoutText() string {
@@ -608,9 +667,6 @@ func (e *env) relInstant(r rhs) int64 {
 // classify names the class of a statement by the first feature (fixed priority) that takes it out of the class on
 // which the Lean theorem C18_partial proves pruning exact; "exact-class" = inside that class.
 func (e *env) classify(q *query, cached, newPart bool, tr *pruning.TimeRange) string {
-	if cached && newPart {
-		return "cache-stale"
-	}
 	switch q.kind {
 	case "j":
 		return "join"
@@ -703,12 +759,12 @@ func (e *env) doQuery(q *query, cached bool) {
 	if q.hdr {
 		hdr = e.dbName
 	}
-	newPart := e.newPartSinceQ
+	newPart, compacted := e.newPartSinceQ, e.compactedSinceQ
 	if !cached {
 		e.qid++
-		e.qhOn.InvalidateCaches()
+		api.C18ResetCaches(e.qhOn)
 	}
-	e.qhOff.InvalidateCaches()
+	api.C18ResetCaches(e.qhOff)
 	rng, tr := e.rangeStr(sqlText)
 	tx := time.Now()
 	xOn, _ := api.C18Transform(e.qhOn, ctx, sqlText, hdr)
@@ -747,13 +803,27 @@ func (e *env) doQuery(q *query, cached bool) {
 	}
 	e.c.Op(op, fmt.Sprintf("range=%s %s rows=%s/%d", rng, strings.Join(ps, " "), np, len(rowsOff)))
 	e.logSQL(op, sqlText)
-	e.newPartSinceQ = false
+	e.newPartSinceQ, e.compactedSinceQ = false, false
 
 	class := e.classify(q, cached, newPart, tr)
+	if class == "exact-class" && cached {
+		// statements inside the exact class can only differ through a stale cached plan. Two distinct causes:
+		// a compaction (which fires InvalidateCaches) since the statement was cached, or a partition created by
+		// a flush (which nothing invalidates).
+		if compacted {
+			class = "cache-stale-after-compaction"
+		} else if newPart {
+			class = "cache-stale"
+		}
+	}
 	pruned := plans["cpu"] != "ALL" || (len(tbls) > 1 && plans["mem"] != "ALL")
 	e.c.Case(op+"|"+e.layoutText(), pruned)
-	replay := fmt.Sprintf("now=%d (%s) | db=%s hdr=%q | layout: %s | sql: %s | pruned plan: %s | rows pruned=%v unpruned=%v",
-		e.now, utc(e.now).Format(time.RFC3339), e.dbName, hdr, e.layoutText(), sqlText, strings.Join(ps, " "), rowsOn, rowsOff)
+	hist := "first run of the statement (caches reset)"
+	if cached {
+		hist = fmt.Sprintf("SAME statement issued again with warm caches; since it was cached: daily compaction + InvalidateCaches hook=%v, new partition by flush=%v (layout below = current files)", compacted, newPart && !compacted)
+	}
+	replay := fmt.Sprintf("now=%d (%s) | %s | db=%s hdr=%q | layout: %s | sql: %s | pruned plan: %s | rows pruned=%v unpruned=%v",
+		e.now, utc(e.now).Format(time.RFC3339), hist, e.dbName, hdr, e.layoutText(), sqlText, strings.Join(ps, " "), rowsOn, rowsOff)
 	switch {
 	case errOn != nil:
 		e.c.Tag("class:" + class + ":error")
@@ -1075,6 +1145,26 @@ func (e *env) edgeGrid() {
 		e.doQuery(qq, true) // TTL expired: recomputed
 	}
 
+	// daily compaction between two runs of the same statement (inside the cache TTL): hour files -> one day file,
+	// hour files removed, the real InvalidateCaches hook fires. Variants: hour dirs emptied / a late raw file stays.
+	for _, hdr := range []bool{false, true} {
+		for _, keep := range []bool{false, true} {
+			e.reset()
+			e.setNow(ts("2024-03-16 02:00:00"))
+			for _, h := range []string{"2024-03-15 10", "2024-03-15 11"} {
+				e.addFile("cpu", false, hourIdx(h+":00:00"), []row{e.rowAt(h+":05:00", 1)})
+				e.addFile("cpu", false, hourIdx(h+":00:00"), []row{e.rowAt(h+":30:00", 2), e.rowAt(h+":45:00", 1)})
+			}
+			e.addFile("cpu", false, hourIdx("2024-03-16 01:00:00"), []row{e.rowAt("2024-03-16 01:10:00", 1)})
+			qq := &query{kind: "s", hdr: hdr, p1: And(A('t', "ge", e.L(t1000, 1)), A('t', "lt", e.L("2024-03-15 12:30:00", 1)))}
+			e.doQuery(qq, false)
+			e.setNow(e.now + 5e9)
+			e.compactDay("cpu", dayIdx("2024-03-15 00:00:00"), keep)
+			e.setNow(e.now + 5e9)
+			e.doQuery(qq, true)
+		}
+	}
+
 	// end-only with data before the default start
 	e.reset()
 	e.setNow(ts("2024-03-15 15:00:00"))
@@ -1366,6 +1456,17 @@ func main() {
 						h += int64(e.r.Range(-2, 2))
 					}
 					e.addFile("cpu", false, h, e.mkRows(h*hourNs, hourNs, 1))
+				}
+				if e.r.Chance(35) {
+					var days []int64
+					for _, f := range e.files {
+						if f.tbl == "cpu" && !f.day {
+							days = append(days, floorDiv(f.idx, 24))
+						}
+					}
+					if len(days) > 0 {
+						e.compactDay("cpu", vh.Pick(e.r, days), e.r.Bool())
+					}
 				}
 				e.setNow(e.now + int64(e.r.Intn(90))*1e9)
 				e.doQuery(q, true)
